@@ -54,9 +54,11 @@ def strategy(draw):
         curves.append(c)
 
     def bound():
-        kind = draw(st.sampled_from(["none", "none", "grid", "off"]))
+        kind = draw(st.sampled_from(["none", "none", "grid", "off", "grid", "off", "far"]))
         if kind == "none":
             return None
+        if kind == "far":
+            return draw(st.sampled_from([float("inf"), 1e20, 0.0, -float("inf")]))
         if kind == "grid":
             return f[draw(st.integers(0, n - 1))]
         return draw(gen.floats(f[0] * 0.5, f[-1] * 1.2))
@@ -89,6 +91,36 @@ def strategy(draw):
             ops.append(dict(op="timedomain", how=draw(st.sampled_from(["maximum", "stalta"])),
                             keep=[draw(st.sampled_from([True, True, True, False])) for _ in range(nwin)]))
     return dict(f=f, curves=curves, ops=ops, nstd=draw(st.sampled_from([1.0, 2.0, 0.5, 1.645])))
+
+
+BIG = {"quick": 16, "thorough": 128}
+
+
+@st.composite
+def strategy_big(draw):
+    """Deployment-scale curve sets: 2^18 .. 2^23 amplitudes in total (e.g. 30 000 windows x 160 frequencies or
+    4 000 x 2 048), built by tiling the drawn curves with seeded multiplicative scatter; short histories of
+    range updates, frequency-domain rejection and manual rejection of a seeded subset."""
+    case = draw(strategy())
+    nfreq = draw(st.sampled_from([50, 160, 160, 512, 1024, 2048]))
+    total = draw(gen.big_size(2 ** 18, 2 ** 23))
+    nwin = min(40000, max(16, total // nfreq))
+    lo_f = case["f"][0]
+    case["f"] = [float(v) for v in np.geomspace(lo_f, lo_f * 100.0, nfreq)]
+    case["tile"] = dict(nwin=nwin, seed=draw(gen.seeds32), jitter=draw(st.sampled_from([0.05, 0.2, 0.5])))
+    ops = []
+    for op in case["ops"][:3]:
+        if op["op"] in ("manual", "peakonly", "timedomain"):
+            ops.append(dict(op="manual" if op["op"] != "peakonly" else "peakonly",
+                            pick=[draw(gen.seeds32), draw(st.sampled_from([0.0003, 0.01, 0.2, 0.6]))]))
+        elif op["op"] == "range":
+            ops.append(dict(op, range="same" if op["range"] == "same" else [None if v is None else float(np.interp(v, [lo_f, lo_f * 200], [lo_f, lo_f * 100])) for v in op["range"]]))
+        else:
+            ops.append(dict(op, range=[None, None], max_iterations=min(op["max_iterations"], 5)))
+    if not any(o["op"] in ("manual", "fdwr") for o in ops):
+        ops.append(dict(op="manual", pick=[draw(gen.seeds32), 0.01]))
+    case["ops"] = ops
+    return case
 
 
 def _records(hv, keep, how):
@@ -145,6 +177,10 @@ def check_case(case):
     f = np.array(case["f"], dtype=float)
     n = len(f)
     A = np.array([c08.expand_curve(c, n) for c in case["curves"]])
+    if case.get("tile"):
+        t = case["tile"]
+        g = np.random.Generator(np.random.PCG64(t["seed"]))
+        A = A[np.arange(t["nwin"]) % len(A)] * np.exp(t["jitter"] * g.standard_normal((t["nwin"], 1))) * np.exp(0.02 * g.standard_normal((t["nwin"], n)))
     nwin = len(A)
     nstd = case["nstd"]
     h = hv.HvsrTraditional(f, A)
@@ -260,9 +296,16 @@ def check_case(case):
                         raise Violation(f"{step}: {key} ({dist}) differs from an object built from the accepted windows alone (rel diff {rel_err(a_[key], b_[key]):.3g})")
             labels.append("accepted-only-object")
 
-    verify("initial state")
+    if case.get("tile"):
+        labels.append("big-2^%d-elements" % int(math.log2(A.size)))
+        labels.append("big-windows>1000" if nwin > 1000 else "big-windows<=1000")
+    else:
+        verify("initial state")
     for k, op in enumerate(case["ops"], start=1):
         step = f"after op {k} ({op['op']})"
+        if "pick" in op:
+            seed_, frac = op["pick"]
+            op = dict(op, idx=np.random.Generator(np.random.PCG64(seed_)).choice(nwin, size=max(1, int(frac * nwin)), replace=False).tolist())
         if op["op"] == "range":
             cur_range = tuple(cur_range) if op["range"] == "same" else tuple(op["range"])
             kwk = op.get("kw", "none")
@@ -316,5 +359,6 @@ def check_case(case):
         history.append(op["op"])
         if op["op"] == "range" and any(x in history[:-1] for x in ("manual", "fdwr", "timedomain")):
             labels.append("rejection-then-range-update")
-        verify(step)
+        if not case.get("tile") or k == len(case["ops"]):      # scale cases: the final state only (cost)
+            verify(step)
     return dict(labels=sorted(set(labels)), nontrivial=nontrivial)
